@@ -48,7 +48,38 @@ func script(seed int64, idx int) {
 	faults := 0
 	nSteps := 6 + rng.Intn(10)
 	for st := 0; st < nSteps; st++ {
-		switch x := rng.Intn(26); {
+		switch x := rng.Intn(27); {
+		case x == 26: // a token is attested, its contract then reports other metadata, and an attestation carrying the OLD metadata follows
+			id := w.ReserveToken()
+			w.Sim.Mutate("create-token-and-attest", func(s *alphsim.Sim) {
+				w.CreateToken(s, id, "TKX", "Token X", 8)
+				b := w.NewBlock(s, false)
+				in := w.AttestFor(id, "TKX", "Token X", 8, 0)
+				tx := fmt.Sprintf("%064x", rng.Uint64())
+				e := s.Emit(s.Core, b, tx, 0, alphsim.FieldsOf(in), in, "attest")
+				s.TxBlock[tx] = b.Hash
+				w.TxOf[tx] = []*alphsim.Ev{e}
+				w.Txs = append(w.Txs, tx)
+			})
+			w.Tr("a new token is created and attested")
+			if !wait(3) {
+				break
+			}
+			w.Sim.Mutate("change-metadata-then-stale-attestation", func(s *alphsim.Sim) {
+				w.CreateToken(s, id, "TKX", "Token X renamed", 8)
+			})
+			wait(2)
+			w.Sim.Mutate("stale-attestation", func(s *alphsim.Sim) {
+				b := w.NewBlock(s, false)
+				in := w.AttestFor(id, "TKX", "Token X", 8, 0)
+				tx := fmt.Sprintf("%064x", rng.Uint64())
+				e := s.Emit(s.Core, b, tx, 0, alphsim.FieldsOf(in), in, "attest-with-outdated-metadata")
+				s.TxBlock[tx] = b.Hash
+				w.TxOf[tx] = []*alphsim.Ev{e}
+				w.Txs = append(w.Txs, tx)
+			})
+			w.Tr("the token contract now reports another name; an attestation with the old name is emitted")
+			vlib.CCount("attestations_with_outdated_metadata", 1)
 		case x == 23: // the reported chain height goes DOWN (reorg to a shorter tip, or a lagging backend behind a load balancer); then a message on the new branch
 			drop := int32(3 + rng.Intn(12))
 			cl := []uint8{2, 5, 10}[rng.Intn(3)]
